@@ -473,6 +473,14 @@ def scramble(data: bytes, spans, rng, mode="random") -> bytes:
             elif mode == "smallint":   # looks like a meaningful little-endian count / index
                 word = struct.pack("<i", rng.choice([1, 2, 3, 5, 7, 10, 31, 100]))
                 b[s:e] = (word * ((e - s) // 4 + 1))[: e - s]
+            elif mode == "floats":   # looks like plausible little-endian float32 measurements (sizes, coordinates)
+                if rng.random() < 0.5:
+                    # one byte repeated: the same modest float32 at every alignment (0x3f3f3f3f = 0.747, 0x40404040 = 3.0,
+                    # 0x3e3e3e3e = 0.186, 0x41414141 = 12.1, 0x42424242 = 48.6)
+                    b[s:e] = bytes([rng.choice([0x3F, 0x3F, 0x40, 0x3E, 0x41, 0x42])]) * (e - s)
+                else:
+                    vals = b"".join(struct.pack("<f", rng.choice([1.0, -1.0]) * rng.uniform(0.05, 900.0)) for _ in range((e - s) // 4 + 1))
+                    b[s:e] = vals[: e - s]
             elif mode == "text":  # looks like a longer, printable string continuing after the NUL
                 b[s:e] = bytes(rng.choice(b"ABCDEFGHIJKLMNOPQRSTUVWXYZabcdefghijklmnopqrstuvwxyz0123456789 ")
                                for _ in range(e - s))
